@@ -408,6 +408,10 @@ def tree(e, V):
     import sympy
     from cellmlmanip.model import Quantity, Variable
     if isinstance(e, Quantity):
+        if float(e) == 1.0 and str(e.units) != 'dimensionless':
+            # a one that carries a unit (1 [per_mV_ms]) is not a plain `1 *`: written 1**1 so that the model's
+            # `isOne` (the `1 * A -> A` step) does not take it for one; value and classification are unchanged
+            return ['pow', ['num', '1'], 1]
         return ['num', fs(Fraction(float(e)))]
     if e is V:
         return 'V'
